@@ -20,7 +20,7 @@ EXPLANATION = (
     "rule I3 of DESIGN.md section 4, per exported class); R18.3 level selection: column level exports the column sub-graph with compound "
     "parents, otherwise the dataset sub-graph, both node-induced by an isinstance filter (no edge filter, so isolated nodes and all edges "
     "among kept nodes are exported); R18.4 the text summary reads the runner's sorted accessors, each `sorted(<set>, key=str)`. "
-    "Does not decide: that the graph itself is right (C01-C06)."
+    "R18.5 the export is recomputed from this runner's own graph on every call: no memo, no class-level store (= R11.3). Does not decide: that the graph itself is right (C01-C06)."
 )
 RULE_TEXT = "one obligation per comprehension of the serialiser, per exported class (I3), per sub-graph view and per summary section"
 
@@ -273,3 +273,6 @@ def rules(ctx: Ctx) -> None:
             ok = bool(src_ok and key_ok and not rev)
         ctx.ob("R18.4", f"accessor:{role}:sorted-by-printed-name", ok, acc.loc(),
                f"{role} returns sorted(<holder set>, key=str): each table once (set), in sorted order, by a key that determines Table identity")
+
+    # ---- R18.5 the export is computed from this runner's graph on every call (= R11.3: accessors are pure, nothing memoised) ---------
+    common.import_rules(ctx, "C11", {"R11.3": "R18.5"})
